@@ -343,9 +343,12 @@ Finish ==
            ELSE LET c == CellOf(envs, f.env, ND(f.node).tgt[1]) IN
                 /\ ctrl' = Append(rest, [f EXCEPT !.i = 1, !.items = Tail(@), !.it = <<@[1], @[2] + 1>>])
                 /\ cells' = SetCell(cells, c, Head(f.items)) /\ wr' = {c}
-    [] f.k = "try" ->
+    [] f.k = "try" ->      \* the body completed normally: the else clause (if any) runs next - outside the reach of the
+                           \* handlers, inside that of the finally block, exactly like a handler body without a name
         /\ cur' = 0 /\ Quiet
-        /\ IF HasFinally(f.node)
+        /\ IF ND(f.node).orelse # <<>>
+           THEN ctrl' = Append(rest, Frame("handler", ND(f.node).orelse, f.node, f.env))
+           ELSE IF HasFinally(f.node)
            THEN ctrl' = Append(rest, Frame("finally", ND(f.node).final, f.node, f.env))
            ELSE ctrl' = rest
     [] f.k = "handler" ->
